@@ -80,6 +80,12 @@ TLimit == /\ IsEvent("Limit") /\ cfg.mode = "sweep"
           /\ T.props \in {-1, PropsByteOf(cfg.lc, cfg.lp, cfg.pb)}   \* first byte = ~props (sampled limits)
           /\ UNCHANGED <<lzvars, cfg, agg>>
 
+\* the same run on a fresh lzma_stream: a handle re-initialised after an abandoned session (no lzma_end) must
+\* produce exactly the same bytes
+TFresh == /\ IsEvent("Fresh")
+          /\ T.dig = cfg.encdig /\ T.len = cfg.enclen
+          /\ UNCHANGED <<lzvars, cfg, agg>>
+
 TEnd == /\ IsEvent("End")
         /\ ended = (cfg.eopm = "yes")
         /\ T.consumed <= cfg.inlen
@@ -92,7 +98,7 @@ TEnd == /\ IsEvent("End")
         /\ T.liblen = T.consumed /\ T.libdig = T.indig /\ T.libret = "STREAM_END"
         /\ UNCHANGED <<lzvars, cfg, agg>>
 
-TNext == TReset \/ TLimit \/ TLits \/ TMatch \/ TRep \/ TSRep \/ TEopm \/ TAgg \/ TBias \/ TEnd
+TNext == TReset \/ TLimit \/ TLits \/ TMatch \/ TRep \/ TSRep \/ TEopm \/ TAgg \/ TBias \/ TFresh \/ TEnd
 TSpec == TInit /\ [][TNext]_tvars
 TraceAccepted == TLCGet("stats").diameter - 1 = Len(TraceLog)
 =============================================================================
